@@ -142,7 +142,7 @@ func verifH_C07_security() {
 	verifReach("end")
 }
 
-//verif:harness id=C07 tier=quick,thorough witness=end bounds="orchestration: security [{A}] with symbolic verdict; path-level parameters subset of {header X-A required, header X-B required, query pq required}; operation-level parameters subset of {header X-A optional (override), query q required}; body required text/plain, present or absent; presence of each header/query symbolic by fork; options MultiError/ExcludeRequestBody/ExcludeRequestQueryParams symbolic"
+//verif:harness id=C07 tier=quick,thorough witness=end bounds="orchestration: security [{A}] with symbolic verdict; path-level parameters subset of {header X-A required, header X-B required, query pq required}; operation-level parameters subset of {header X-A optional (override), query q required, query PQ optional (another name than pq: no override)}; body required text/plain, present or absent; presence of each header/query symbolic by fork; options MultiError/ExcludeRequestBody/ExcludeRequestQueryParams symbolic"
 func verifH_C07_orchestration() {
 	authA := verifNondetBool("authA")
 	spec := &openapi3.T{Components: &openapi3.Components{SecuritySchemes: openapi3.SecuritySchemes{
@@ -172,13 +172,17 @@ func verifH_C07_orchestration() {
 	if plPQ {
 		pi.Parameters = append(pi.Parameters, qry("pq"))
 	}
-	ol := verifChoose("opLevel", 4)
-	olXA, olQ := ol&1 != 0, ol&2 != 0
+	ol := verifChoose("opLevel", 8)
+	olXA, olQ, olPQ := ol&1 != 0, ol&2 != 0, ol&4 != 0
 	if olXA {
 		op.Parameters = append(op.Parameters, hdr("X-A", false)) // overrides the required path-level X-A
 	}
 	if olQ {
 		op.Parameters = append(op.Parameters, qry("q"))
+	}
+	if olPQ {
+		// another parameter: query parameter names are case-sensitive, PQ does not override pq
+		op.Parameters = append(op.Parameters, &openapi3.ParameterRef{Value: &openapi3.Parameter{Name: "PQ", In: "query", Schema: str}})
 	}
 	withBody := verifChoose("withBody", 2) == 1
 	if withBody {
